@@ -25,7 +25,8 @@ from dataclasses import dataclass, field
 from typing import Any, Callable, Optional
 
 VERIF_DIR = os.path.dirname(os.path.dirname(os.path.abspath(__file__)))
-REPO_PKG = os.path.realpath("/repo/geometer")
+REPO_PKG = os.path.realpath(os.path.join(os.environ.get("VERIF_GEOMETER_SRC") or "/repo", "geometer"))
+OUT_DIR = os.environ.get("VERIF_OUT_DIR") or VERIF_DIR  # evidence/ and replay/ live here (overridden only by mutation experiments)
 
 
 # ----------------------------------------------------------------------------------------------- outcomes
@@ -498,7 +499,7 @@ def main(argv=None) -> int:
         return match_known(ledger, pid, mod, sig, c) is not None
 
     violations = []
-    rdir = os.path.join(VERIF_DIR, "replay", pid)
+    rdir = os.path.join(OUT_DIR, "replay", pid)
     for sig in sorted(new_buckets):
         items = new_buckets[sig]
         lname = sig.split("|", 1)[0]
@@ -572,8 +573,8 @@ def main(argv=None) -> int:
         "violations": len(violations),
     }
     if not args.law:
-        os.makedirs(os.path.join(VERIF_DIR, "evidence"), exist_ok=True)
-        with open(os.path.join(VERIF_DIR, "evidence", f"{pid}.json"), "w") as fh:
+        os.makedirs(os.path.join(OUT_DIR, "evidence"), exist_ok=True)
+        with open(os.path.join(OUT_DIR, "evidence", f"{pid}.json"), "w") as fh:
             json.dump(ev, fh, indent=1, default=str)
 
     for k in sorted(known_hits):
